@@ -37,7 +37,7 @@ KNOWN = {
     'registry.CommaSeparatedListOfStrings': ('commalist', ('SeparatedListOf',), ('splitter',), ('Value=String', "joiner=', '.join")),
     'registry.CommaSeparatedSetOfStrings': ('commalist', ('SeparatedListOf',), ('splitter',), ('List=set', 'Value=String', "joiner=', '.join")),
     'registry.TemplatedString': ('string', ('String',), ('__init__', 'setValue'), ('requiredTemplates=[]',)),
-    'registry.Json': ('oracle:json.loads/json.dumps', ('String',), ('__call__', 'editable', 'set', 'setValue'), ()),
+    'registry.Json': ('oracle:json.loads/json.dumps', ('String',), ('__call__', '_needsQuoting', 'editable', 'set', 'setValue'), ()),
     # ---- src/conf.py
     'conf.ValidNick': ('string', ('registry.String',), ('setValue',), ()),
     'conf.ValidNickOrEmpty': ('string', ('ValidNick',), ('setValue',), ()),
@@ -89,8 +89,10 @@ def class_sig(node):
     return bases, tuple(sorted(methods)), tuple(sorted(attrs))
 
 
-def inventory():
-    """[(qualified name, kind, bases, methods, attrs)] of every registry value class; raises Shape"""
+def inventory(strict=True):
+    """[(qualified name, kind, bases, methods, attrs)] of every registry value class; raises Shape.
+    strict=False (the harness, so that it can still replay its corpus when the shape check -- reported by the
+    table generator -- fails): unknown classes get kind 'oracle:unknown', signatures are not compared"""
     out = []
     for mod, path in (('registry', 'src/registry.py'), ('conf', 'src/conf.py')):
         t = tree(path)
@@ -105,13 +107,13 @@ def inventory():
                 valueish.add(node.name)
                 q = '%s.%s' % (mod, node.name)
                 sig = class_sig(node)
-                need(q in KNOWN, 'unknown registry value class %s (bases %r): add it to the C15 model/inventory' % (q, sig[0]))
-                kind, kb, km, ka = KNOWN[q]
-                need(sig == (tuple(kb), tuple(sorted(km)), tuple(sorted(ka))),
+                need(q in KNOWN or not strict, 'unknown registry value class %s (bases %r): add it to the C15 model/inventory' % (q, sig[0]))
+                kind, kb, km, ka = KNOWN.get(q, ('oracle:unknown', (), (), ()))
+                need(not strict or sig == (tuple(kb), tuple(sorted(km)), tuple(sorted(ka))),
                      'registry value class %s changed shape: now bases=%r methods=%r attrs=%r' % ((q,) + sig))
                 out.append((q, kind) + sig)
     missing = set(KNOWN) - {q for q, *_ in out}
-    need(not missing, 'registry value classes disappeared: %r' % sorted(missing))
+    need(not strict or not missing, 'registry value classes disappeared: %r' % sorted(missing))
     return out
 
 
@@ -127,7 +129,7 @@ def gen_T15():
     opn = find_def(t, 'open_registry')
     strs = _const_strs(opn)
     need('\\\\*$' in strs, 'open_registry: slashEnd regex changed')
-    need('(?<!\\\\): ' in strs, 'open_registry: key/value split regex changed')
+    need('(?<!\\\\)((?:\\\\\\\\)*): ' in strs, 'open_registry: key/value split regex changed')
     need(ast.unparse(module_assign(t, '_splitRe')) == "re.compile('(?<!\\\\\\\\)\\\\.')", '_splitRe changed')
     need(ast.unparse(module_assign(t, 'ENCODING')) == "'string_escape' if minisix.PY2 else 'unicode_escape'", 'ENCODING changed')
     cl = find_def(t, 'close')
